@@ -125,6 +125,13 @@ def schedules(fam):
         out.append(SC(fam, "dropwhilepending", {"b": Mo(r1=R("c")), "c": Mo(z=P("1"))},
                       [opn("c1"), sub("c1", "b"), Q, sub("c1", "c"), conn("c1"), ev("b", "change", k="r1", val=P("0")), cache("b"), conn("c1"),
                        Q, ev("c", "custom"), Q]))
+        # a get completes on a resource that a still loading subscription references: the get does not make the client
+        # retain it, so the subscription's response must carry it (again)
+        stg = dict(settle=True)
+        out.append(SC(fam, "getduringload", {"p": Mo(m=R("m"), d=R("d")), "m": Mo(z=P("1")), "d": Mo(w=P("1"))},
+                      [opn("c1"), dict(sub("c1", "p"), **stg), dict(reply("access", "p"), **stg), dict(reply("get", "p"), **stg),
+                       dict(reply("get", "m"), **stg), dict(get("c1", "m"), **stg), dict(reply("access", "m"), **stg),
+                       dict(reply("get", "d"), **stg), Q, ev("m", "custom"), Q]))
         # a sent parent is released while another parent keeps the child; then the last delivered parent is released
         # while a third parent is still loading: its response must carry the child again
         out.append(SC(fam, "staleindirectsent", {"p1": Mo(m=R("m")), "p2": Mo(m=R("m")), "p3": Mo(m=R("m"), x=R("x")), "m": Mo(z=P("1")), "x": Mo(w=P("1"))},
